@@ -192,10 +192,11 @@ def _job(job):
             stats['models'] = stats.get('models', 0) + 1
     elif kind == 'extra':
         from .. import modelgen
-        for k, (lname, pm) in enumerate(c07.extra_plain_models()):
+        for k, item in enumerate(c07.extra_plain_models()):
+            lname, pm, defs = item[0], item[1], (item[2] if len(item) > 2 else None)
             sp = c07.lang_spec(lname)
             fx = langs.fixture(sp)
-            m, objs = modelgen.build(fx, pm)
+            m, objs = modelgen.build(fx, pm, defenses=defs)
             from maltoolbox.model import AttackerAttachment
             at = AttackerAttachment()
             m.add_attacker(at)
